@@ -107,6 +107,7 @@ func c08StopStart(c *Ctx) *RuleResult {
 	g := NewFuncCFG(info, su.Decl.Body)
 	var cancelCall *ast.CallExpr
 	var loop *ast.ForStmt
+	var rangeLoop *ast.RangeStmt
 	ast.Inspect(su.Decl.Body, func(n ast.Node) bool {
 		switch x := n.(type) {
 		case *ast.CallExpr:
@@ -115,10 +116,44 @@ func c08StopStart(c *Ctx) *RuleResult {
 			}
 		case *ast.ForStmt:
 			loop = x
+		case *ast.RangeStmt:
+			if fieldOf(info, x.X) == upd {
+				rangeLoop = x
+			}
 		}
 		return true
 	})
 	construct := su.Name() + "|cancel-and-drain"
+	if loop == nil && rangeLoop != nil && cancelCall != nil {
+		// `for range ch { }` receives until the channel is closed; its body must not leave early
+		early := false
+		ast.Inspect(rangeLoop.Body, func(n ast.Node) bool {
+			switch n.(type) {
+			case *ast.BranchStmt, *ast.ReturnStmt:
+				early = true
+			}
+			return true
+		})
+		cleared := true
+		for _, f := range []string{"executionUpdates", "executionCancellation"} {
+			okc := false
+			ast.Inspect(su.Decl.Body, func(n ast.Node) bool {
+				if as, ok := n.(*ast.AssignStmt); ok && len(as.Lhs) == 1 && strings.HasSuffix(exprStr(as.Lhs[0]), "."+f) && isNilIdent(as.Rhs[0]) && as.Pos() > rangeLoop.End() {
+					okc = true
+				}
+				return true
+			})
+			cleared = cleared && okc
+		}
+		if !early && cleared && g.Dominates(cancelCall, g.Anchor(rangeLoop.X)) {
+			r.ok(construct, posOf(p, su.Decl), "cancel, range over the channel until closed, clear both fields")
+		} else {
+			r.bad(c.Prop, construct, posOf(p, su.Decl), "stopExecution does not wait until the running action has fully stopped (range loop left early, or fields not cleared, or not cancelled first)")
+		}
+		loop = nil
+		cancelCall = nil
+	}
+	skipForLoopCheck := rangeLoop != nil && loop == nil
 	okD := cancelCall != nil && loop != nil && loop.Cond == nil && g.Dominates(cancelCall, g.Anchor(loop.Body.List[0]))
 	why := "no cancel call followed by an unconditional receive loop"
 	if okD {
@@ -167,7 +202,9 @@ func c08StopStart(c *Ctx) *RuleResult {
 			}
 		}
 	}
-	if okD {
+	if skipForLoopCheck {
+		// already decided above
+	} else if okD {
 		r.ok(construct, posOf(p, su.Decl), "cancel, receive until closed, clear both fields")
 	} else {
 		r.bad(c.Prop, construct, posOf(p, su.Decl), "stopExecution does not wait until the running action has fully stopped: "+why)
@@ -204,6 +241,10 @@ func c08Shutdown(c *Ctx) *RuleResult {
 	if sync == nil {
 		panic(anchorError("BuildClient.Run: Synchronize call"))
 	}
+	ctxName := paramNameOfType(u, isContextType)
+	if ctxName == "" {
+		panic(anchorError("BuildClient.Run: context parameter"))
+	}
 	isPBIStore := func(n ast.Node) (*ast.AssignStmt, bool) {
 		as, ok := n.(*ast.AssignStmt)
 		if ok && len(as.Lhs) == 1 && strings.HasSuffix(exprStr(as.Lhs[0]), ".PreferBeingIdle") {
@@ -214,7 +255,7 @@ func c08Shutdown(c *Ctx) *RuleResult {
 	var override *ast.IfStmt
 	ast.Inspect(u.Decl.Body, func(n ast.Node) bool {
 		ifs, ok := n.(*ast.IfStmt)
-		if !ok || exprStr(resolveLocalAlias(u, ifs.Cond)) != "ctx.Err() != nil" {
+		if !ok || exprStr(resolveLocalAlias(u, ifs.Cond)) != ctxName+".Err() != nil" {
 			return true
 		}
 		for _, s := range ifs.Body.List {
@@ -256,8 +297,11 @@ func c08Shutdown(c *Ctx) *RuleResult {
 			s := exprStr(as.Rhs[0])
 			if strings.Contains(s, "Completed.Status") && strings.HasSuffix(s, "!= nil") {
 				for _, gd := range flattenGuards(GuardsOf(info, u.Decl.Body, as)) {
-					if gd.Pos && exprStr(gd.Cond) == "ok" {
-						okC = true
+					// inside the branch taken when the current state is a Completed update (comma-ok type assertion)
+					if src := guardIdentSource(u, gd); src != nil && gd.Pos {
+						if ta, isTA := ast.Unparen(src).(*ast.TypeAssertExpr); isTA && strings.HasSuffix(exprStr(ta.Type), "CurrentState_Executing_Completed") {
+							okC = true
+						}
 					}
 				}
 			}
@@ -306,7 +350,7 @@ func c08Shutdown(c *Ctx) *RuleResult {
 	if ok {
 		d := BuildDTable(u, &ast.BlockStmt{List: []ast.Stmt{first, &ast.ReturnStmt{Results: []ast.Expr{ast.NewIdent("false"), ast.NewIdent("nil")}}}})
 		if d.Err == "" {
-			ctxA := d.FindBool(func(k string) bool { return strings.Contains(k, "ctx.Err()") })
+			ctxA := d.FindBool(func(k string) bool { return strings.Contains(k, ctxName+".Err()") })
 			nilA := d.FindBool(func(k string) bool { return strings.Contains(k, "schedulerMayThinkExecutingUntil") && strings.Contains(k, "nil") })
 			var afterA *dtAtom
 			for _, a := range d.Atoms {
@@ -357,11 +401,26 @@ func c08Shutdown(c *Ctx) *RuleResult {
 			}
 			n++
 			a, b := false, false
-			for _, gd := range flattenGuards(GuardsOf(lu.Info(), fl.Body, ret)) {
-				if gd.Pos && exprStr(gd.Cond) == "mayTerminate" {
-					a = true
+			lctx := ""
+			if fl.Type.Params != nil {
+				for _, f := range fl.Type.Params.List {
+					if tv, ok := lu.Info().Types[f.Type]; ok && isContextType(tv.Type) && len(f.Names) > 0 {
+						lctx = f.Names[0].Name
+					}
 				}
-				if gd.Pos && exprStr(gd.Cond) == "ctx.Err() != nil" {
+			}
+			for _, gd := range flattenGuards(GuardsOf(lu.Info(), fl.Body, ret)) {
+				// the first result of BuildClient.Run
+				if id, ok := ast.Unparen(gd.Cond).(*ast.Ident); ok && gd.Pos {
+					if src := resolveLocalAlias(lu, id); src != nil {
+						if call, ok := ast.Unparen(src).(*ast.CallExpr); ok {
+							if fn := calleeOf(lu.Info(), call); fn != nil && fn.Name() == "Run" {
+								a = true
+							}
+						}
+					}
+				}
+				if gd.Pos && lctx != "" && exprStr(gd.Cond) == lctx+".Err() != nil" {
 					b = true
 				}
 			}
